@@ -37,14 +37,17 @@ _c('C05', 'Proved: a charge step derives one (kwh, price = kwh x tariff) and app
           'PARTIAL: sums over whole histories decided by correspondence + ledger monitor.',
    'Coq proof over step model + translated payment/energy kernels; correspondence; ledger monitor')
 _c('C07', 'Proved: every accepted enter() (instruction of any controller or default transition) has established the location facts (vehicle at station/base; route starts at vehicle and ends at '
-          'target); trips start at the origin and end at the destination. PARTIAL: lift to the state invariant over histories decided by correspondence + location monitor.',
-   'Coq proof of enter-guard theorem on the step model + correspondence + monitor')
+          'target); trips start at the origin and end at the destination. Proved over ALL finite histories of step operations, any controller (C07_places_over_histories, macro frame theorem): '
+          'every vehicle charging or queueing at a station is at that station\'s location, every vehicle parked or charging at a base is at that base\'s location. '
+          'PARTIAL: "planned route starts at the current position" over histories (needs connected routes; route_corr checks the two ends only) decided by correspondence + location monitor.',
+   'Coq proof: enter-guard theorem + state invariant by induction over operation histories (macro frame theorem); correspondence; monitor')
 _c('C09', 'Proved: transition yields a new state iff exit AND enter succeed, otherwise the whole Sim record is kept; a refused instruction is as if absent from the batch; the instruction taking part for a '
           'vehicle is the last pushed, the driver having the final word (stack model). transition_previous_to_next is regenerated from the source each run.',
    'Coq proof over translated transition kernel + step/stack model; correspondence; before/after deep-compare monitor')
 _c('C10', 'Proved: the regenerated membership test means public-or-shares-a-fleet; every accepted enter() has checked access for every entity the activity names (incl. the station behind a base). '
-          'PARTIAL: built-in dispatcher pairing decided by the dispatcher engine/monitor.',
-   'Coq proof over translated membership kernels + enter-guard theorem; correspondence with fleet profiles; monitor')
+          'Proved over ALL finite histories of step operations, any controller (C10_access_over_histories): every entity named by every vehicle\'s current activity (station, base, station behind the base, '
+          'assigned request, carried request) grants access to the vehicle\'s membership; a vehicle\'s membership never changes. PARTIAL: built-in dispatcher pairing decided by the dispatcher engine/monitor.',
+   'Coq proof: translated membership kernels + enter-guard theorem + state invariant by induction over operation histories; correspondence with fleet profiles; monitor')
 _c('C15', 'Proved for any controller output and released rows: only tick changes the clock (frame theorem), a full step adds exactly dt, n steps add n*dt, run(a++b) = run b . run a. '
           'The implementation side of composition (cursors, generators, reporter) is decided by split-run correspondence.',
    'Coq proof (frame theorem + translated tick) + split-run differential correspondence')
